@@ -58,9 +58,18 @@ func c13Hash(seed uint64, path, salt string) uint64 {
 }
 
 func c13Schema(cur **c13Trial, seed *uint64) graphql.Schema {
+	never := false
+	return c13SchemaOpt(cur, seed, &never)
+}
+
+// plain (read at resolve time): defer nothing -- the twin that c04direct.go compares with
+func c13SchemaOpt(cur **c13Trial, seed *uint64, plain *bool) graphql.Schema {
 	var node *graphql.Object
 	deferIt := func(top int, path, salt string, v interface{}) interface{} {
 		t := *cur
+		if *plain {
+			return v
+		}
 		switch c13Hash(*seed, path, salt) % 4 {
 		case 0, 1:
 			return func() (interface{}, error) {
@@ -99,7 +108,7 @@ func c13Schema(cur **c13Trial, seed *uint64) graphql.Schema {
 				for i := range items {
 					items[i] = deferIt(top, path, "item"+fmt.Sprint(i), &c13Node{depth: d + 1})
 				}
-				if c13Hash(*seed, path, "list")%3 == 0 {
+				if !*plain && c13Hash(*seed, path, "list")%3 == 0 {
 					return func() (interface{}, error) {
 						t.log(top, "force "+path+" list")
 						return items, nil
@@ -121,7 +130,11 @@ func c13Schema(cur **c13Trial, seed *uint64) graphql.Schema {
 		"many": &graphql.Field{Type: graphql.NewList(node), Resolve: resolve("kids")},
 		"num":  &graphql.Field{Type: graphql.Int, Resolve: resolve("v")},
 	}})
-	q := graphql.NewObject(graphql.ObjectConfig{Name: "Query", Fields: graphql.Fields{"q": &graphql.Field{Type: graphql.Int}}})
+	q := graphql.NewObject(graphql.ObjectConfig{Name: "Query", Fields: graphql.Fields{"q": &graphql.Field{Type: graphql.Int},
+		"one":  &graphql.Field{Type: node, Resolve: resolve("kid")},
+		"many": &graphql.Field{Type: graphql.NewList(node), Resolve: resolve("kids")},
+		"num":  &graphql.Field{Type: graphql.Int, Resolve: resolve("v")},
+	}})
 	s, err := graphql.NewSchema(graphql.SchemaConfig{Query: q, Mutation: mut})
 	if err != nil {
 		panic(err)
